@@ -138,7 +138,8 @@ class ExpressionToken(RecursiveCompositeBaseToken):
 
     @property
     def right_brackets(self) -> bool:
-        return self.value[0].__class__ in [OneOperandArithmeticOperatorToken, BracketStartToken] and len(
+        # a unary sign binds to the next operand only (-2+3 is (-2)+3), so only real brackets are re-emitted
+        return self.value[0].__class__ in [BracketStartToken] and len(
             self.value) in [2, 3]
 
     @property
